@@ -45,7 +45,7 @@ static Eigen::MatrixXd test_matrix(int n, bool sym)
     return A;
 }
 
-static std::string solver_rules(const std::string& cls, int sel, int srt)
+static std::string solver_rules(const std::string& cls, int sel, int srt, int nev)
 {
     const int n = 8;
     try
@@ -53,33 +53,33 @@ static std::string solver_rules(const std::string& cls, int sel, int srt)
         if (cls == "SymEigsSolver")
         {
             Eigen::MatrixXd A = test_matrix(n, true); DenseSymMatProd<double> op(A);
-            SymEigsSolver<DenseSymMatProd<double>> s(op, 2, 5); s.init(); s.compute((SortRule) sel, 50, 1e-8, (SortRule) srt);
+            SymEigsSolver<DenseSymMatProd<double>> s(op, nev, 5); s.init(); s.compute((SortRule) sel, 50, 1e-8, (SortRule) srt);
         }
         else if (cls == "HermEigsSolver")
         {
             Eigen::MatrixXcd A = test_matrix(n, true).cast<cd>(); A(0, 1) += cd(0, 0.5); A(1, 0) -= cd(0, 0.5);
             DenseHermMatProd<cd> op(A);
-            HermEigsSolver<DenseHermMatProd<cd>> s(op, 2, 5); s.init(); s.compute((SortRule) sel, 50, 1e-8, (SortRule) srt);
+            HermEigsSolver<DenseHermMatProd<cd>> s(op, nev, 5); s.init(); s.compute((SortRule) sel, 50, 1e-8, (SortRule) srt);
         }
         else if (cls == "SymEigsShiftSolver")
         {
             Eigen::MatrixXd A = test_matrix(n, true); DenseSymShiftSolve<double> op(A);
-            SymEigsShiftSolver<DenseSymShiftSolve<double>> s(op, 2, 5, 0.3); s.init(); s.compute((SortRule) sel, 50, 1e-8, (SortRule) srt);
+            SymEigsShiftSolver<DenseSymShiftSolve<double>> s(op, nev, 5, 0.3); s.init(); s.compute((SortRule) sel, 50, 1e-8, (SortRule) srt);
         }
         else if (cls == "GenEigsSolver")
         {
             Eigen::MatrixXd A = test_matrix(n, false); DenseGenMatProd<double> op(A);
-            GenEigsSolver<DenseGenMatProd<double>> s(op, 2, 6); s.init(); s.compute((SortRule) sel, 50, 1e-8, (SortRule) srt);
+            GenEigsSolver<DenseGenMatProd<double>> s(op, nev, 6); s.init(); s.compute((SortRule) sel, 50, 1e-8, (SortRule) srt);
         }
         else if (cls == "GenEigsRealShiftSolver")
         {
             Eigen::MatrixXd A = test_matrix(n, false); DenseGenRealShiftSolve<double> op(A);
-            GenEigsRealShiftSolver<DenseGenRealShiftSolve<double>> s(op, 2, 6, 0.3); s.init(); s.compute((SortRule) sel, 50, 1e-8, (SortRule) srt);
+            GenEigsRealShiftSolver<DenseGenRealShiftSolve<double>> s(op, nev, 6, 0.3); s.init(); s.compute((SortRule) sel, 50, 1e-8, (SortRule) srt);
         }
         else if (cls == "GenEigsComplexShiftSolver")
         {
             Eigen::MatrixXd A = test_matrix(n, false); DenseGenComplexShiftSolve<double> op(A);
-            GenEigsComplexShiftSolver<DenseGenComplexShiftSolve<double>> s(op, 2, 6, 0.3, 0.2); s.init(); s.compute((SortRule) sel, 50, 1e-8, (SortRule) srt);
+            GenEigsComplexShiftSolver<DenseGenComplexShiftSolve<double>> s(op, nev, 6, 0.3, 0.2); s.init(); s.compute((SortRule) sel, 50, 1e-8, (SortRule) srt);
         }
         else return "ERROR unknown class";
     }
@@ -123,7 +123,7 @@ int main()
                     default: res = "ERROR rule not instantiable for complex values";
                 }
             }
-            else if (t[0] == "solver") res = solver_rules(t[1], std::stoi(t[2]), std::stoi(t[3]));
+            else if (t[0] == "solver") res = solver_rules(t[1], std::stoi(t[2]), std::stoi(t[3]), t.size() > 4 ? std::stoi(t[4]) : 2);
             else res = "ERROR unknown-case";
         }
         catch (const std::exception& e) { res = what(e); }
